@@ -129,6 +129,7 @@ func (b *streamableBE) exec(o op) string {
 		return fmt.Sprintf("err:other:%d", status)
 	case "closeStream":
 		if st := b.streams[*o.S]; st != nil {
+			b.drain(*o.S, st) // the peer reads everything that was written to it before it hangs up
 			st.CloseByClient()
 			b.old[*o.S] = append(b.old[*o.S], st)
 			delete(b.streams, *o.S)
@@ -247,12 +248,17 @@ func (b *streamableBE) framesOf(s int) (seen, int) {
 
 func (b *streamableBE) reqFrames(s int) []int64 { sn, _ := b.framesOf(s); return sn.reqID }
 
+// drain: a sentinel notification on the stream; everything written earlier on that stream precedes it.
+func (b *streamableBE) drain(s int, st *hk.Stream) {
+	_, before := classifyFrames(datasOf(st))
+	if err := b.f.S.SendNotification(b.sid(s), "notifications/message", tagParams(-1)); err == nil {
+		waitUntil(func() bool { _, n := classifyFrames(datasOf(st)); return n > before })
+	}
+}
+
 func (b *streamableBE) census() (map[string]map[string][]int, int) {
-	// quiescence: a sentinel notification on every open stream; everything written earlier on that stream precedes it
 	for s, st := range b.streams {
-		if err := b.f.S.SendNotification(b.sid(s), "notifications/message", tagParams(-1)); err == nil {
-			waitUntil(func() bool { _, n := classifyFrames(datasOf(st)); return n >= 1 })
-		}
+		b.drain(s, st)
 	}
 	out := map[string]map[string][]int{}
 	for s := range b.sids {
@@ -385,6 +391,7 @@ func (b *legacyBE) exec(o op) string {
 			}
 			return "ok"
 		}
+		b.drain(s)
 		b.streams[s].CloseByClient()
 		b.open[s] = false
 		id := b.sids[s]
@@ -415,26 +422,31 @@ func (b *legacyBE) reqFrames(s int) []int64 {
 	return sn.reqID
 }
 
-func (b *legacyBE) census() (map[string]map[string][]int, int) {
-	for s, st := range b.streams {
-		if !b.open[s] {
-			continue
-		}
-		want := 0
-		// sentinel on the notification path (refused today: D14) and on the request path
-		if err := b.srv.SendNotification(b.sids[s], "notifications/message", tagParams(-1)); err == nil {
-			want++
-		}
-		ctx, cancel := context.WithCancel(b.ctxs[s])
-		done := make(chan struct{})
-		go func() {
-			b.srv.SendRequest(ctx, b.sids[s], &mcp.JSONRPCRequest{JSONRPC: "2.0", Request: mcp.Request{Method: "sentinel"}})
-			close(done)
-		}()
+// drain: sentinels on the notification path (refused today: D14) and on the request path of the session's stream.
+func (b *legacyBE) drain(s int) {
+	st := b.streams[s]
+	_, want := classifyFrames(datasOf(st))
+	if err := b.srv.SendNotification(b.sids[s], "notifications/message", tagParams(-1)); err == nil {
 		want++
-		waitUntil(func() bool { _, n := classifyFrames(datasOf(st)); return n >= want })
-		cancel()
-		<-done
+	}
+	ctx, cancel := context.WithCancel(b.ctxs[s])
+	done := make(chan struct{})
+	go func() {
+		// an explicit id: the server's request counter is not consumed by the sentinel
+		b.srv.SendRequest(ctx, b.sids[s], &mcp.JSONRPCRequest{JSONRPC: "2.0", ID: int64(-1000 - want), Request: mcp.Request{Method: "sentinel"}})
+		close(done)
+	}()
+	want++
+	waitUntil(func() bool { _, n := classifyFrames(datasOf(st)); return n >= want })
+	cancel()
+	<-done
+}
+
+func (b *legacyBE) census() (map[string]map[string][]int, int) {
+	for s := range b.streams {
+		if b.open[s] {
+			b.drain(s)
+		}
 	}
 	out := map[string]map[string][]int{}
 	for s, st := range b.streams {
@@ -602,7 +614,7 @@ func (b *stdioBE) census() (map[string]map[string][]int, int) {
 	ctx, cancel := context.WithCancel(b.sctx)
 	done := make(chan struct{})
 	go func() {
-		b.srv.SendRequest(ctx, &mcp.JSONRPCRequest{JSONRPC: "2.0", Request: mcp.Request{Method: "sentinel"}})
+		b.srv.SendRequest(ctx, &mcp.JSONRPCRequest{JSONRPC: "2.0", ID: int64(-1000), Request: mcp.Request{Method: "sentinel"}})
 		close(done)
 	}()
 	want++
